@@ -26,7 +26,10 @@
 EXTENDS Integers, Sequences, FiniteSets, TLC
 
 None == [kind |-> "none", id |-> 0, ar |-> 0, kl |-> FALSE, rz |-> FALSE, body |-> "", v |-> ""]
-MonInit(Names, Slots, MaxId) == [store |-> [n \in Names |-> None], cnt |-> [i \in 1..MaxId |-> 0],
+\* callable 9 is registered by the harness before every history as pf (one parameter x; it raises KeyError when x = 3): the
+\* body "viapy" = {pf(x)} reaches it THROUGH a Klong function
+Pf == 9
+MonInit(Names, Slots, MaxId) == [store |-> [n \in Names |-> None], cnt |-> [i \in (1..MaxId) \cup {Pf} |-> 0],
                                  wraps |-> [w \in Slots |-> ""], bad |-> "ok"]
 
 RECURSIVE Join(_)
@@ -46,6 +49,7 @@ Body(b, a) ==
     [] b = "right" -> IntT(a[2])                       \* {y}           x is not mentioned
     [] b = "pair" -> ListT(<<IntT(a[1]), IntT(a[2])>>) \* {x,y}
     [] b = "negy" -> IntT(a[1] + (-a[2]))              \* {x+-y}
+    [] b = "viapy" -> "?"                              \* {pf(x)}        judged by ViaPy below
     [] b = "sum3" -> IntT(a[1] + a[2] + a[3])          \* {x+y+z}
     [] b = "third" -> IntT(a[3])                       \* {z}
     [] b = "xz" -> IntT(a[1] * a[3])                   \* {x*z}         y is not mentioned
@@ -68,6 +72,13 @@ Expected(m, e) ==
          LET r == OverLog(s.id, c, e.args[1], Tail(e.args), <<>>) IN [log |-> r[1], res |-> r[2], n |-> r[3]]
 
 LogArgs(l) == [i \in 1..Len(l) |-> [id |-> l[i].id, args |-> l[i].args]]
+\* a call of the Klong function {pf(x)} (through the handle or as name(a)): pf is invoked exactly once with the argument
+ViaPy(m, e) ==
+  IF Len(e.log) = 0 THEN "CallableNotInvoked"
+  ELSE IF Len(e.log) > 1 THEN "CallableInvokedMoreThanOnce"
+  ELSE IF LogArgs(e.log) # <<[id |-> Pf, args |-> <<IntT(e.args[1])>>]>> THEN "WrongArguments"
+  ELSE IF e.args[1] = 3 THEN (IF e.res = "raised" THEN "ok" ELSE "FailureOfTheCallableNotPropagated")
+  ELSE IF e.res = Ret(Pf, m.cnt[Pf] + 1) THEN "ok" ELSE "ResultIsNotTheReturnValue"
 Verdict(m, e) ==
   CASE e.op = "readdata" ->
          IF m.store[e.n].kind # "data" THEN "skip"
@@ -85,9 +96,11 @@ Verdict(m, e) ==
          IF n = "" THEN "skip" ELSE IF m.store[n].kind # "kg" THEN "skip"
          ELSE IF Len(e.args) # m.store[n].ar THEN (IF e.res = "rejected" THEN "ok" ELSE "WrongArgumentCountAccepted")
          ELSE IF e.res = "rejected" THEN "RightArgumentCountRejected"
+         ELSE IF m.store[n].body = "viapy" THEN ViaPy(m, e)
          ELSE IF e.res = Body(m.store[n].body, e.args) THEN "ok" ELSE "WrapperResultDiffersFromKlongCall"
     [] e.op = "callkg" ->
          IF m.store[e.n].kind # "kg" \/ Len(e.args) # m.store[e.n].ar THEN "skip"
+         ELSE IF m.store[e.n].body = "viapy" THEN ViaPy(m, e)
          ELSE IF e.res = Body(m.store[e.n].body, e.args) THEN "ok" ELSE "KlongCallWrongValue"
     [] OTHER -> "ok"
 
@@ -98,6 +111,9 @@ Apply(m, e) ==
     [] e.op = "del" -> [m EXCEPT !.store[e.n] = None]
     [] e.op = "getwrap" -> [m EXCEPT !.wraps[e.w] = e.n]
     [] e.op = "callpy" /\ m.store[e.n].kind = "py" -> [m EXCEPT !.cnt[m.store[e.n].id] = Expected(m, e).n]
+    [] e.op = "callwrap" /\ m.wraps[e.w] # "" /\ m.store[m.wraps[e.w]].kind = "kg" /\ m.store[m.wraps[e.w]].body = "viapy"
+         /\ Len(e.args) = 1 -> [m EXCEPT !.cnt[Pf] = @ + 1]
+    [] e.op = "callkg" /\ m.store[e.n].kind = "kg" /\ m.store[e.n].body = "viapy" /\ Len(e.args) = 1 -> [m EXCEPT !.cnt[Pf] = @ + 1]
     [] OTHER -> m
 
 Step(m, e) == LET v == Verdict(m, e) m2 == Apply(m, e)
